@@ -348,6 +348,10 @@ func FieldLoadCode(f *FlagData, argName, argTypeName, validate string, defaultVa
 		} else {
 			var checkErr bool
 			code, declErr, checkErr = conversionCode(f.FullName, argName, argTypeName, !f.Required && defaultValue == nil)
+			if !checkErr && validate != "" {
+				// the conversion declares no "err" (bytes) but the validation code uses it
+				declErr = true
+			}
 			if checkErr {
 				code += "\nif err != nil {\n"
 				nilVal := "nil"
